@@ -98,6 +98,17 @@ class Adt:
         return f'{self.ty.split("::")[-1]}{v}{list(self.fields)}'
 
 
+class SymEnum:
+    """fieldless enum with a symbolic discriminant (BV64 index into the declared variant order)"""
+    __slots__ = ('ty', 'v', 'n')
+
+    def __init__(self, ty, v, n):
+        self.ty, self.v, self.n = ty, z3.simplify(v), n
+
+    def __repr__(self):
+        return f'{self.ty.split("::")[-1]}::<{self.v}>'
+
+
 class Tup:
     __slots__ = ('fields',)
 
